@@ -79,6 +79,7 @@ type Exec struct {
 	panicked  []retInfo // explicit panics / exceptional exits (reach, heap)
 	skipSafety bool
 	witness    map[string]SV
+	defers     []deferred
 }
 
 type unsupportedErr struct{ msg string }
@@ -135,7 +136,9 @@ func (ex *Exec) zero(t types.Type) Term {
 		case sInt:
 			return tInt(0)
 		case sStr:
-			return ex.q.strLit("")
+			z := Term{"(mk_str ((as const (Array Int Int)) 0) 0 0)", sStr}
+			ex.q.litOf[z.S] = ""
+			return z
 		case sF64:
 			return Term{"(_ +zero 11 53)", sF64}
 		case sF32:
@@ -705,7 +708,7 @@ func (ex *Exec) instr(ins ssa.Instruction, b *ssa.BasicBlock, h *Heap, reach Ter
 				}
 			}
 		}
-		if !allowed {
+		if !allowed && !ex.skipSafety {
 			name := ex.obName("unreach.panic")
 			q.oblige(name, "unreach.panic", reach, tFalse, ex.pos(x), "explicit panic: "+msg)
 		}
